@@ -193,12 +193,14 @@ class SqlStorage(MutableMapping):
         try:
             with sqlite3.connect(self.dbfile) as db:
                 names = {}
+                # instr()=1 is a literal, case sensitive 'starts with' (LIKE treats % and _ in the prefix as
+                # wildcards and ignores ASCII case), so this selects the same names as MemoryStorage does.
                 if return_metadata:
-                    for dbid, name, uri in db.execute("SELECT id, name, uri FROM pyro_names WHERE name LIKE ?", (prefix + '%',)).fetchall():
+                    for dbid, name, uri in db.execute("SELECT id, name, uri FROM pyro_names WHERE instr(name, ?)=1", (prefix,)).fetchall():
                         metadata = {m[0] for m in db.execute("SELECT metadata FROM pyro_metadata WHERE object=?", (dbid,)).fetchall()}
                         names[name] = uri, metadata
                 else:
-                    for name, uri in db.execute("SELECT name, uri FROM pyro_names WHERE name LIKE ?", (prefix + '%',)).fetchall():
+                    for name, uri in db.execute("SELECT name, uri FROM pyro_names WHERE instr(name, ?)=1", (prefix,)).fetchall():
                         names[name] = uri
                 return names
         except sqlite3.DatabaseError as e:
